@@ -59,18 +59,18 @@ func propsOfKey(key string) []string {
 
 var profiles = map[string]*Profile{
 	"C01": {Name: "walks", Steps: 34, Fee: []bool{false, true}, Windows: []int64{0, 0, 2},
-		W:         map[string]int{"xfer": 6, "ktx": 7, "mine": 4, "foreign": 4, "fork": 5, "walk": 4, "reopen": 1, "sync": 2, "xfer-bad": 1},
+		W:         map[string]int{"xfer": 6, "ktx": 7, "mine": 4, "foreign": 4, "fork": 5, "walk": 4, "reopen": 1, "sync": 2, "xfer-bad": 1, "xfer-hold": 1, "submit-held": 1},
 		EndChecks: []string{"sync", "obs", "replica", "walk 0", "replica", "sync", "replica"}},
 	"C02": {Name: "amounts", Steps: 30, Fee: []bool{true}, Windows: []int64{0},
-		W:         map[string]int{"xfer": 10, "xfer-bad": 4, "mine": 4, "foreign": 3, "fork": 3, "walk": 2, "sync": 2, "resubmit": 1},
+		W:         map[string]int{"xfer": 10, "xfer-bad": 4, "mine": 4, "foreign": 3, "fork": 3, "walk": 3, "sync": 2, "resubmit": 1, "xfer-hold": 3, "submit-held": 3, "mine-auto": 2},
 		EndChecks: []string{"sync", "obs"}},
 	"C03": {Name: "conflicts", Steps: 36, Fee: []bool{false, true}, Windows: []int64{0},
 		W: map[string]int{"xfer": 5, "xfer-bad": 4, "resubmit": 3, "ktx": 5, "ktx-two": 5, "ktx-old": 3, "mine": 3, "foreign": 5, "fork": 3,
-			"walk": 2, "sync": 2, "badblock": 1},
+			"walk": 2, "sync": 2, "badblock": 2, "xfer-hold": 2, "submit-held": 2},
 		EndChecks: []string{"sync", "obs"}},
 	"C05": {Name: "failures", Steps: 30, Fee: []bool{false, true}, Windows: []int64{0, 2},
 		W: map[string]int{"xfer": 4, "xfer-bad": 5, "ktx": 4, "ktx-old": 3, "resubmit": 2, "badblock": 5, "mine": 3, "foreign": 3, "fork": 3,
-			"walk": 2, "cmpcopy": 4, "sync": 2, "fault": 5},
+			"walk": 2, "cmpcopy": 4, "sync": 2, "fault": 5, "mine-auto": 3, "xfer-hold": 1, "submit-held": 1},
 		EndChecks: []string{"cmpcopy", "sync", "cmpcopy"}},
 	"C06": {Name: "crash", Steps: 26, Fee: []bool{false, true}, Windows: []int64{0},
 		W:         map[string]int{"xfer": 6, "ktx": 6, "mine": 5, "foreign": 5, "fork": 5, "walk": 3, "sync": 3, "xfer-bad": 1, "truncate": 2},
